@@ -402,10 +402,11 @@ async def run_session(cfg, edit=None, recorder=None, max_turns=6000, quiet_turns
     trusted=[SSHKey public...], c_version, s_version).  Returns a Result."""
     import asyncssh
     loop = asyncio.get_running_loop()
+    inline = True
     try:
         loop.set_default_executor(InlineExecutor(max_workers=1))
-    except Exception:                          # noqa: fall back to the thread pool (still correct, slower)
-        pass
+    except Exception:                          # noqa: fall back to the thread pool and real (short) sleeps
+        inline = False
     res = Result()
     m = Mitm(edit)
     res.mitm = m
@@ -440,7 +441,7 @@ async def run_session(cfg, edit=None, recorder=None, max_turns=6000, quiet_turns
     task = asyncio.ensure_future(asyncssh.connect('mem', 22, tunnel=tun, **ckw))
     last, quiet, turns = None, 0, 0
     while turns < max_turns and not task.done():
-        await asyncio.sleep(0)
+        await asyncio.sleep(0 if inline else 0.002)
         turns += 1
         cur = (m.nwrites, len(tun.wires))
         if cur == last:
